@@ -736,8 +736,12 @@ func checkSetProtocol(r *Reporter, p *Prog) {
 				if m, isMut := isMutation(c); isMut && m == "Delete" && idx == 0 && len(c.Args) == 1 && isElem(c.Args[0], cpt, lparams) {
 					return false, true
 				}
-				// s.Delete(element) of the set itself
+				// s.Delete(element) of the set itself - not of a result collector (a set made inside the
+				// operation and captured by the callback)
 				if se, ok := ast.Unparen(c.Fun).(*ast.SelectorExpr); ok && se.Sel.Name == "Delete" && idx == 0 && len(c.Args) == 1 && isElem(c.Args[0], cpt, lparams) {
+					if ro, isVar := rootObj(info, se.X).(*types.Var); isVar && ro.Pos() > fd.Body.Pos() && ro.Pos() < fd.Body.End() && lit.Outside(info, ro) {
+						return
+					}
 					return false, true
 				}
 				return
@@ -768,9 +772,33 @@ func checkSetProtocol(r *Reporter, p *Prog) {
 				cpt, found := lf.PointOf(c)
 				return found && isElem(c.Args[0], cpt, lparams) && lit.Outside(info, rootObj(info, se.X))
 			}
+			// a change can also be reported by CANCELLATION: the element is taken out of the opposite
+			// result collector again (it was added and deleted by the same call, the net effect is nothing)
+			// - on the edge on which that removal succeeded
+			cancelled := map[Edge]bool{}
+			lf.forEachEdgeFact(func(e Edge, b *cfg.Block, ft fact) {
+				if !ft.Pol {
+					return
+				}
+				c, idx := atomCall(ft.Atom, Point{b, len(b.Nodes) - 1})
+				if c == nil || idx != 0 || len(c.Args) != 1 {
+					return
+				}
+				se, ok := ast.Unparen(c.Fun).(*ast.SelectorExpr)
+				if !ok || se.Sel.Name != "Delete" {
+					return
+				}
+				cpt, found := lf.PointOf(c)
+				if !found || !isElem(c.Args[0], cpt, lparams) {
+					return
+				}
+				if ro, isVar := rootObj(info, se.X).(*types.Var); isVar && ro.Pos() > fd.Body.Pos() && ro.Pos() < fd.Body.End() && lit.Outside(info, ro) {
+					cancelled[e] = true
+				}
+			})
 			for _, e := range lic {
 				e := e
-				if w, found := lf.reach(Point{e.From.Succs[e.Succ], 0}, &searchOpts{AvoidNode: isResultAdd, FromEdge: &e}, func(pt Point, atExit bool) bool { return atExit }); found {
+				if w, found := lf.reach(Point{e.From.Succs[e.Succ], 0}, &searchOpts{AvoidNode: isResultAdd, AvoidEdge: func(e2 Edge) bool { return cancelled[e2] }, FromEdge: &e}, func(pt Point, atExit bool) bool { return atExit }); found {
 					r.Fail("set/exact-diff", key+" (every change reported)", p.posStr(condOf(e.From).Pos()), "after the underlying Set/Delete reported a membership change a path leaves the callback without putting the element into the result set: the change is applied but not reported", w...)
 				} else {
 					r.Pass("set/exact-diff", key+" (every change reported)", p.posStr(condOf(e.From).Pos()), "every membership change is reported")
